@@ -255,8 +255,7 @@ func styledown(c *lib.Ctx) error {
 		cfg  []byte
 	}
 	jobs := []job{
-		{"MCStyledown/rt", sdCfg("InitRT", c.Pick(2, 3), 2, 0, 1)},
-		{"MCStyledown/render1", sdCfg("InitRender", 0, 1, 1, 4)},
+		{"MCStyledown/rt+render1", sdCfg("InitBoth", c.Pick(2, 3), 2, 1, 4)},
 	}
 	if c.Thorough() {
 		jobs = append(jobs, job{"MCStyledown/render2", sdCfg("InitRender", 0, 1, 2, 2)})
@@ -378,7 +377,7 @@ func sdRandomCase(r *rand.Rand) (Text, []SDDef) {
 }
 
 func sdRandom(c *lib.Ctx) error {
-	n := c.Pick(1500, 20000)
+	n := c.Pick(1000, 20000)
 	rng := rand.New(rand.NewSource(c.Seed*104729 + 2))
 	var recs []sdRecorded
 	// directed probe for the recorded finding
